@@ -445,6 +445,26 @@ pub fn check(
             break;
         }
         if !before.contains_key(key) {
+            // in a writing mode, a new *hidden* entry (a cache or state directory of the tool, such
+            // as `.tool_cache/`) is not for these properties to forbid; check mode is read-only
+            let first_new = {
+                let mut acc = String::new();
+                let mut found = key.clone();
+                for comp in key.split('/') {
+                    if !acc.is_empty() {
+                        acc.push('/');
+                    }
+                    acc.push_str(comp);
+                    if !before.contains_key(&acc) {
+                        found = comp.to_string();
+                        break;
+                    }
+                }
+                found
+            };
+            if write_mode && first_new.starts_with('.') && !first_new.ends_with(".typ") {
+                continue;
+            }
             v.push(viol(tree_props, if check_mode { "I14.1-tree" } else { "I15.2-untouched" }, step, format!("new path {:?} exists after the invocation", key)));
         }
     }
